@@ -65,9 +65,9 @@ theorem rootCols_of_mapping {o : TraceOpts} {t : Ty} {F : Fields} {md : Metadata
 /-- **the supported root kinds, characterised**: a type is traced to a non-nullable struct — for every option set —
 exactly when it is a struct with named fields, a tuple struct, a tuple, or a newtype struct around one of these -/
 theorem rootCols_isSome_iff (o : TraceOpts) : ∀ (t : Ty), (rootCols o t).isSome = recordRoot t
-  | .prim .bool | .prim .f32 | .prim .f64 | .prim .char | .prim .bytes => by simp [rootCols, mappingDT, recordRoot, primDT]
+  | .prim .bool | .prim .f32 | .prim .f64 | .prim .char | .prim .bytes | .prim .bytesRef | .prim .bytesSeq => by simp [rootCols, mappingDT, recordRoot, primDT]
   | .prim (.int it) => by cases it <;> simp [rootCols, mappingDT, recordRoot, primDT, intDT]
-  | .prim .str => by
+  | .prim .str | .prim .strRef | .prim .cowStr => by
     cases h1 : o.stringDictionaryEncoding <;> cases h2 : o.stringsAsLargeUtf8 <;>
       simp [rootCols, mappingDT, recordRoot, primDT, strDT, h1, h2]
   | .unit => by simp [rootCols, mappingDT, recordRoot]
